@@ -70,7 +70,7 @@ def run(tier):
         tr = os.path.join(c.wd, "replay_%s.ndjson" % tag)
         c.drive(exe, ["--script", script], tr, "R-" + tag, timeout=900)
         c.validate(spec, "TraceLogRouting", "TraceLogRouting.cfg", tr, "R-" + tag, timeout=1500)
-    cases, ops = (100, 100) if tier == "quick" else (2500, 100)
+    cases, ops = (100, 100) if tier == "quick" else (1500, 100)
     tr2 = os.path.join(c.wd, "random.ndjson")
     c.drive(exe, ["--random", "--seed", SEED, "--cases", cases, "--ops", ops], tr2, "T", timeout=900)
     c.validate(spec, "TraceLogRouting", "TraceLogRouting.cfg", tr2, "T", timeout=1500)
